@@ -1156,7 +1156,13 @@ Return(c, v) ==
     ELSE
     LET f == Top(c)  c0 == Pop(c) IN
     CASE f.k = "args" ->
-            (IF f.todo = <<>> THEN Apply(c0, f.node, Append(f.done, v))
+            (IF f.node.k = "mcall" /\ f.done = <<>> /\ f.todo # <<>> /\ ~IsBot(v) /\ v.t # "estr"
+                /\ ~(IsMap(c0, v) /\ (c0.store[v.v].meta # <<>> \/ MapGet(c0.store[v.v], VStr(f.node.m)).ok))
+                /\ KnownNoMethod(c0, v, f.node.m)
+             THEN \* a call chain is evaluated left to right: the method is looked up on the receiver before the arguments are
+                  \* evaluated (guide: Maps / the `.` operator), so a missing method fails before any argument runs
+                  RtErr(c0, "no-such-method")
+             ELSE IF f.todo = <<>> THEN Apply(c0, f.node, Append(f.done, v))
              ELSE Ev(Push(c0, [f EXCEPT !.done = Append(@, v), !.todo = Tail(@)]), Head(f.todo)))
       [] f.k = "blk" ->
             (IF f.rest = <<>> THEN Rt(c0, v)
